@@ -5,7 +5,7 @@
    by the oracle (tested_only). *)
 From Coq Require Import String ZArith Bool Arith List.
 From SV Require Import Names NamesFacts ListFacts Rep Fresh Complex Atomic RepInv Homology Filtration FiltProofs Shapes SnapProofs.
-From SV Require Closed ClosedReach Listing VInv VIso.
+From SV Require Closed ClosedReach Listing VInv VIso FiltClosed FiltBook FiltCount.
 Import ListNotations.
 
 Theorem C14_maxOrder_refuted : maxOrder (f_rep witness) <> maxOrder (snap_rep witness).
@@ -86,3 +86,17 @@ Theorem C14_snapshot_meets_the_vertex_set_reading :
   VInv.vinv c /\ forall s, containsSimplex c s = true -> VInv.sameset (basisOf c s) (basisOf (f_rep f) s).
 Proof. exact VIso.snap_vinv. Qed.
 Print Assumptions C14_snapshot_meets_the_vertex_set_reading.
+
+(* THE TOTAL COUNT.  numberOfSimplices() of a filtration walks indices() and adds up the sizes of the
+   per-index tables up to the current index; for every filtration that satisfies the two invariants
+   kept by every filtration history (C13_history_invariant, C13_bookkeeping_invariant) that is the
+   number of simplices the filtration lists at its index, and what the snapshot counts *)
+Theorem C14_numberOfSimplices_counts_the_view :
+  forall f, FiltClosed.minv f -> FiltBook.binv f -> f_numberOfSimplices f = length (f_simplices f false).
+Proof. exact FiltCount.numberOfSimplices_counts_the_view. Qed.
+Print Assumptions C14_numberOfSimplices_counts_the_view.
+Theorem C14_snapshot_counts_what_the_filtration_counts :
+  forall hp f uid hp' c, FiltClosed.minv f -> FiltBook.binv f -> Closed.cinv (f_rep f) ->
+  copy_new hp (f_view f) uid = (hp', c, Ok tt) -> numberOfSimplices c = f_numberOfSimplices f.
+Proof. exact FiltCount.snapshot_counts_what_the_filtration_counts. Qed.
+Print Assumptions C14_snapshot_counts_what_the_filtration_counts.
